@@ -435,6 +435,13 @@ theorem gen_decision_within_tol (a b tol : α) : Gen.within_tol a b tol = within
   unfold Gen.within_tol withinTol
   by_cases h : a - b < 0 <;> by_cases h2 : a - b ≤ tol <;> simp [h, h2]
 
+/-- the range check at the head of `ExpectileGAM._validate_params` accepts exactly the model's `validExpectile`
+(strictly inside `(0, 1)`), rejects everything else with a `ValueError`, and hands the accepted value on unchanged -/
+theorem gen_decision_expectile_range (e : α) :
+    Gen.expectile_range_check e = if validExpectile e then .ok e else .error "ValueError" := by
+  unfold Gen.expectile_range_check validExpectile
+  by_cases h1 : (1:α) ≤ e <;> by_cases h0 : e ≤ 0 <;> simp [h1, h0]
+
 end gen_decisions
 
 end PyGam.C18
